@@ -135,7 +135,7 @@ func vfC05RefSelect(w *vfC05World, q query.Q) string {
 }
 
 func TestVerifC05E2E(t *testing.T) {
-	r := vfNewRand(vfSeed() + 4242)
+	r := vfNewRand(vfNewRand(vfSeed() + 4242).U64()) // hashed: see zz_verif_c05_test.go
 	n := vfN(60)
 	var w *vfC05World
 	var id *indexData
